@@ -67,21 +67,33 @@ pub fn check_views(alloc: &LLFree, model: &Model, rng: &mut Rng, out: &mut Vec<V
             v.push(Violation::new(
                 "C04",
                 "exact-free-frames",
-                format!("stats().free_frames={} model={}", s.free_frames, model.free_frames()),
+                format!(
+                    "stats().free_frames={} model={}",
+                    s.free_frames,
+                    model.free_frames()
+                ),
             ));
         }
         if s.free_huge != model.free_huge() {
             v.push(Violation::new(
                 "C04",
                 "exact-free-huge",
-                format!("stats().free_huge={} model={}", s.free_huge, model.free_huge()),
+                format!(
+                    "stats().free_huge={} model={}",
+                    s.free_huge,
+                    model.free_huge()
+                ),
             ));
         }
         if s.free_trees != model.free_trees() {
             v.push(Violation::new(
                 "C04",
                 "exact-free-trees",
-                format!("stats().free_trees={} model={}", s.free_trees, model.free_trees()),
+                format!(
+                    "stats().free_trees={} model={}",
+                    s.free_trees,
+                    model.free_trees()
+                ),
             ));
         }
         for h in 0..model.huges() {
@@ -170,7 +182,11 @@ pub fn check_class_sums(alloc: &LLFree, cfg: &Config, out: &mut Vec<Violation>) 
     let Ok(ts) = guarded(|| alloc.tree_stats()) else {
         return;
     };
-    let total: usize = ts.classes.iter().map(|c| c.free_frames + c.alloc_frames).sum();
+    let total: usize = ts
+        .classes
+        .iter()
+        .map(|c| c.free_frames + c.alloc_frames)
+        .sum();
     let free: usize = ts.classes.iter().map(|c| c.free_frames).sum();
     let want = cfg.trees() * TREE_FRAMES;
     if total != want {
@@ -195,7 +211,10 @@ pub fn check_class_sums(alloc: &LLFree, cfg: &Config, out: &mut Vec<Violation>) 
         out.push(Violation::new(
             "C14",
             "class-free-sum",
-            format!("sum(free_c)={free} != tree_stats().free_frames={}", ts.free_frames),
+            format!(
+                "sum(free_c)={free} != tree_stats().free_frames={}",
+                ts.free_frames
+            ),
         ));
     }
 }
